@@ -426,9 +426,17 @@ func (p *c16Proc) probe(farm *hx.Farm, slot, uri, accept string) c16Outcome {
 	return o
 }
 
-// apply a configuration to the live process
+// apply a configuration to the live process and wait until it is applied
 func (p *c16Proc) apply(cfg *config.PikeConfig, method string, padTo *int) error {
 	before := p.pike.CountEvent("update.done")
+	if err := p.save(cfg, method, padTo); err != nil {
+		return err
+	}
+	return p.waitApplied(before, method)
+}
+
+// save hands the configuration to the live process (admin API or one in-place write of its file)
+func (p *c16Proc) save(cfg *config.PikeConfig, method string, padTo *int) error {
 	switch method {
 	case "admin_put":
 		body, _ := json.Marshal(cfg)
@@ -459,8 +467,12 @@ func (p *c16Proc) apply(cfg *config.PikeConfig, method string, padTo *int) error
 			return err
 		}
 	}
-	// completion is observed, not assumed: update.done events, then a quiet period
-	if !hx.WaitUntil(15*time.Second, func() bool { return p.pike.CountEvent("update.done") > before }) {
+	return nil
+}
+
+// waitApplied: completion is observed, not assumed: update.done events, then a quiet period
+func (p *c16Proc) waitApplied(before int, method string) error {
+	if !hx.WaitUntil(25*time.Second, func() bool { return p.pike.CountEvent("update.done") > before }) {
 		return fmt.Errorf("no reload observed after %s", method)
 	}
 	last := p.pike.CountEvent("update.begin")
@@ -476,14 +488,17 @@ func (p *c16Proc) apply(cfg *config.PikeConfig, method string, padTo *int) error
 }
 
 func c16Run(r *hx.Run, bin string, seq *c16Seq, rnd *rand.Rand) {
-	farm := hx.NewFarm(3, nil)
+	farm := hx.NewFarm(4, nil)
 	defer farm.Close()
 	farm.SetScript(c16OriginScript)
 	farm.PingDelay.Store(int64(40 * time.Millisecond)) // a slow health endpoint widens every reload's windows
 	var origins []string
-	for _, o := range farm.Origins {
+	for _, o := range farm.Origins[:3] {
 		origins = append(origins, o.URL())
 	}
+	// the fourth origin answers health checks very slowly: an update that adds it takes seconds to apply
+	farm.Origins[3].PingDelay.Store(int64(600 * time.Millisecond))
+	slowOrigin := farm.Origins[3].URL()
 	mkProc := func(name string) *c16Proc {
 		pp := hx.FreePorts(5)
 		return &c16Proc{name: name, ports: map[string]int{"S0": pp[0], "S1": pp[1], "S2": pp[2], "S3": pp[4]}, admin: srvAddr(pp[3]), cl: hx.NewClient(nil)}
@@ -582,6 +597,21 @@ func c16Run(r *hx.Run, bin string, seq *c16Seq, rnd *rand.Rand) {
 				return "cache c1: size and hitForPass changed (restart-only settings)"
 			},
 		}
+	case "save_during_slow_update":
+		script = []func() string{
+			func() string {
+				logical.Upstreams = append(logical.Upstreams, config.UpstreamConfig{Name: "uslow", HealthCheck: "/ping", Servers: []config.UpstreamServerConfig{{Addr: slowOrigin}}})
+				return "upstream_add uslow (its health endpoint takes 600 ms per ping: the update takes seconds)"
+			},
+			func() string {
+				logical.Caches = append(logical.Caches, config.CacheConfig{Name: "c2", Size: 5000, HitForPass: "5m"})
+				findSrv(logical, "S1").Cache = "c2"
+				logical.Caches = append(logical.Caches[:1:1], logical.Caches[2:]...) // c1 is gone
+				logical.Locations[0].RespHeaders = append(logical.Locations[0].RespHeaders, "X-Late:1")
+				logical.Upstreams = logical.Upstreams[:len(logical.Upstreams)-1] // and the slow upstream is taken out again
+				return "uslow removed again, cache c1 replaced by c2 for S1, response header on l0 - saved while the previous update is still being applied"
+			},
+		}
 	case "server_cache_switch":
 		script = []func() string{
 			func() string { findSrv(logical, "S1").Cache = "c0"; return "srv_cache_switch S1 c0" },
@@ -659,6 +689,31 @@ func c16Run(r *hx.Run, bin string, seq *c16Seq, rnd *rand.Rand) {
 		}
 		if seq.Directed == "remove_two_servers" {
 			method = "inplace_write"
+		}
+		if seq.Directed == "save_during_slow_update" {
+			method = "inplace_write"
+			seq.Steps[len(seq.Steps)-1].Method = method
+			if si == 0 {
+				// saved, not waited for: the next save arrives while this one is being applied
+				begun := L.pike.CountEvent("update.begin")
+				if err := L.save(c16WithPorts(logical, L.ports), method, &pad); err != nil {
+					r.Inconclusive("cannot write the configuration: " + err.Error())
+					stop.Store(true)
+					twg.Wait()
+					return
+				}
+				if !hx.WaitUntil(10*time.Second, func() bool { return L.pike.CountEvent("update.begin") > begun }) {
+					r.Inconclusive("the first save did not start an update")
+					stop.Store(true)
+					twg.Wait()
+					return
+				}
+				time.Sleep(300 * time.Millisecond)
+				if L.pike.CountEvent("update.done") < L.pike.CountEvent("update.begin") {
+					r.Add("saves_while_an_update_was_being_applied", 1)
+				}
+				continue
+			}
 		}
 		if err := L.apply(c16WithPorts(logical, L.ports), method, &pad); err != nil {
 			stop.Store(true)
@@ -839,7 +894,7 @@ func c16Run(r *hx.Run, bin string, seq *c16Seq, rnd *rand.Rand) {
 }
 
 func c16(r *hx.Run) {
-	r.Rule = "two real pike processes per sequence. The live one starts on a base configuration (2 caches, 2 upstreams, 2 locations, 2 servers, 1 compress profile) and receives 2-6 random valid updates (30 mutation kinds: set/unset min length, filter, compress profile, cache, location list; add/remove server, location, upstream, compress profile; set/unset rewrites, added headers, added query, upstream Accept-Encoding, upstream server list; override/remove bestCompression) through the admin PUT /config or a single in-place write of the file, each completion observed through the update.done hook, under continuous traffic on an unchanged server; the fresh one is started on the final configuration. A probe suite derived from the final configuration (servers x 4 prefixes x sizes around the effective threshold x 3 content types x cacheable or not x Accept-Encoding, each twice) is run against both and compared field by field (status, label, encoding, encoded and decoded bytes, headers, which origin saw which path/query/headers), plus cache binding between servers, the retained hit of a key cached before the updates, and (one sequence) that a removed server stops listening. Non-trivial/distinct = step sequence."
+	r.Rule = "two real pike processes per sequence. The live one starts on a base configuration (2 caches, 2 upstreams, 2 locations, 2 servers, 1 compress profile) and receives 2-6 random valid updates (30 mutation kinds: set/unset min length, filter, compress profile, cache, location list; add/remove server, location, upstream, compress profile; set/unset rewrites, added headers, added query, upstream Accept-Encoding, upstream server list; override/remove bestCompression) through the admin PUT /config or a single in-place write of the file, each completion observed through the update.done hook, under continuous traffic on an unchanged server; the fresh one is started on the final configuration. A probe suite derived from the final configuration (servers x 4 prefixes x sizes around the effective threshold x 3 content types x cacheable or not x Accept-Encoding, each twice) is run against both and compared field by field (status, label, encoding, encoded and decoded bytes, headers, which origin saw which path/query/headers), plus cache binding between servers, the retained hit of a key cached before the updates, and (one sequence) that a removed server stops listening. Nine directed sequences add: bestCompression overridden then removed, a server removed and re-added, cache switch/rename, a level set then unset, two servers removed at once, a cache sharing a store removed, restart-only cache settings changed, and a configuration saved while the previous one (with an upstream whose health endpoint is slow) is still being applied. Non-trivial/distinct = step sequence."
 	r.Assume = []string{"restart-only settings (cache size/hit-for-pass/store, server log format, admin) are never changed", "gzip/brotli are deterministic, so equal levels give equal bytes", "addresses differ between the two processes and are not compared"}
 	bin, err := hx.BuildPike(r.Scratch)
 	if err != nil {
@@ -851,7 +906,7 @@ func c16(r *hx.Run) {
 	n := r.Pick(8, 400)
 	sem := make(chan struct{}, 8)
 	var wg sync.WaitGroup
-	for i := 0; i < n+8 && !r.TooMany(); i++ {
+	for i := 0; i < n+9 && !r.TooMany(); i++ {
 		seq := &c16Seq{ID: i, CheckRemovedListener: i%8 == 0}
 		if i == n {
 			seq.Directed = "best_override_then_remove"
@@ -876,6 +931,9 @@ func c16(r *hx.Run) {
 		}
 		if i == n+7 {
 			seq.Directed = "cache_settings_changed"
+		}
+		if i == n+8 {
+			seq.Directed = "save_during_slow_update"
 		}
 		seed := rnd.Int63()
 		wg.Add(1)
